@@ -1,4 +1,5 @@
 import ArimProofs.Lemmas.Fermat
+import ArimProofs.Tie.C01
 import Mathlib.Algebra.Order.Group.Nat
 /-! # C01 — ray tracing returns the globally fastest discrete ray
 
@@ -434,5 +435,35 @@ example : fullIndices 4 7 [1, 2] = [4, 1, 2, 7] := by decide
 example : solveR (exLeg 0).t [exLeg 1] 0 2 = some (4, [1]) := by decide
 
 end Examples
+
+
+/-! ## The kernel as translated from the source on this run
+
+`Src.find_minimum_times_cell` (file `Generated/SrcC01.lean`) is the translation, for one output cell `(i, j)`, of
+`arim.ray._find_minimum_times` made from `/repo/src` on every run; `Tie.C01.tie_find_minimum_times` identifies it
+with `minPlus`/`scanMin`. -/
+section OnSource
+open Arim.Tie.C01
+variable [Sub α] [Mul α] [Div α] [Neg α]
+
+/-- **the translated min-plus kernel returns the minimum and a point that realises it**: entered with `(inf, -1)`,
+`inf` above every candidate (as the call site does), the cell `(i, j)` ends with the least `t1[i,k] + t2[k,j]` and the
+first index `k` at which it is attained. -/
+theorem src_find_minimum_times_spec (o : Src.Ops α) (t1 t2 : Nat → Nat → α) (inf : α) (m i j : Nat) (hm : 0 < m)
+    (hinf : ∀ k, k < m → t1 i k + t2 k j < inf) :
+    ∃ (v : α) (k : Nat), Src.find_minimum_times_cell o t1 t2 inf (-1) m i j = (v, (k : Int)) ∧ k < m ∧ v = t1 i k + t2 k j ∧
+      (∀ k', k' < m → v ≤ t1 i k' + t2 k' j) ∧ (∀ k', k' < k → v < t1 i k' + t2 k' j) := by
+  obtain ⟨v, k, hs, hcell⟩ := tie_find_minimum_times_inf o t1 t2 inf m i j hm hinf
+  obtain ⟨v', k', hs', hk, hv, hle, hfirst⟩ := scanMin_spec (fun k => t1 i k + t2 k j) m hm
+  have : some (v, k) = some (v', k') := by rw [← hs, ← hs']; rfl
+  obtain ⟨rfl, rfl⟩ := Prod.mk.inj (Option.some.inj this)
+  exact ⟨v, k, hcell, hk, hv, hle, hfirst⟩
+
+/-- with no candidate (`m = 0`) the cell keeps its entry values -/
+theorem src_find_minimum_times_empty (o : Src.Ops α) (t1 t2 : Nat → Nat → α) (t0 : α) (i0 : Int) (i j : Nat) :
+    Src.find_minimum_times_cell o t1 t2 t0 i0 0 i j = (t0, i0) := by
+  rw [tie_find_minimum_times]; rfl
+
+end OnSource
 
 end Arim.C01
